@@ -1,16 +1,16 @@
 (* C04 (and C02): all streams of one muxer expose the same media sequence numbers and durations at the
    same time.  In every state reachable between two writes all streams have the same SHAPE: segment
    counter, number of evicted segments (= EXT-X-MEDIA-SEQUENCE), the listed segments' gap flags, ids,
-   start and end times (hence durations), and the open segment's id and start. *)
+   start and end times (hence durations) and wall clocks, and the open segment's id, start and wall clock. *)
 From Coq Require Import List ZArith Bool Lia Arith.
 From GoHls Require Import Model.Mux Proofs.MuxStream Proofs.MuxLift Proofs.MuxWindow Proofs.MuxHistory Proofs.MuxTimes
   Proofs.MuxMulti Proofs.MuxCut Proofs.MuxLog Proofs.MuxLogStep Proofs.MuxLogTS Proofs.MuxPartIds.
 Import ListNotations.
 Local Open Scope Z_scope.
 
-Definition seg_shape (g : segrec) : bool * Z * Z * Z := (sg_gap g, sg_id g, sg_start g, sg_end g).
-Definition open_shape (g : segrec) : bool * Z * Z := (sg_gap g, sg_id g, sg_start g).
-Definition shape (s : stream) : Z * Z * list (bool * Z * Z * Z) * option (bool * Z * Z) :=
+Definition seg_shape (g : segrec) : bool * Z * Z * Z * Z := (sg_gap g, sg_id g, sg_start g, sg_end g, sg_ntp g).
+Definition open_shape (g : segrec) : bool * Z * Z * Z := (sg_gap g, sg_id g, sg_start g, sg_ntp g).
+Definition shape (s : stream) : Z * Z * list (bool * Z * Z * Z * Z) * option (bool * Z * Z * Z) :=
   (st_nextSeg s, st_delcount s, map seg_shape (st_segments s), option_map open_shape (st_open s)).
 
 (* ---- one rotation maps equal shapes to equal shapes ---- *)
@@ -41,21 +41,21 @@ Proof.
   - simpl. split; [exact El|tauto].
 Qed.
 
-Lemma srot_segments_shape v sc a ga b gb d ntp1 f1 c1 ntp2 f2 c2 :
+Lemma srot_segments_shape v sc a ga b gb d ntp f1 c1 f2 c2 :
   shape a = shape b -> st_open a = Some ga -> st_open b = Some gb ->
-  shape (fst (fst (srot_segments v sc a ga d ntp1 f1 c1))) = shape (fst (fst (srot_segments v sc b gb d ntp2 f2 c2))).
+  shape (fst (fst (srot_segments v sc a ga d ntp f1 c1))) = shape (fst (fst (srot_segments v sc b gb d ntp f2 c2))).
 Proof.
   intros Es Ha Hb. unfold shape in Es. rewrite Ha, Hb in Es. cbn [option_map] in Es.
   assert (E1 : st_nextSeg a = st_nextSeg b) by congruence.
   assert (E2 : st_delcount a = st_delcount b) by congruence.
   assert (E3 : map seg_shape (st_segments a) = map seg_shape (st_segments b)) by congruence.
   assert (E4 : open_shape ga = open_shape gb) by congruence.
-  destruct (srot_segments_frame v sc a ga d ntp1 f1 c1) as (A1 & _ & A3 & A4 & _ & A6 & _).
-  destruct (srot_segments_frame v sc b gb d ntp2 f2 c2) as (B1 & _ & B3 & B4 & _ & B6 & _).
+  destruct (srot_segments_frame v sc a ga d ntp f1 c1) as (A1 & _ & A3 & A4 & _ & A6 & _).
+  destruct (srot_segments_frame v sc b gb d ntp f2 c2) as (B1 & _ & B3 & B4 & _ & B6 & _).
   assert (Eg : seg_shape (sg_with_end ga d) = seg_shape (sg_with_end gb d)).
-  { unfold open_shape in E4. unfold seg_shape. cbn [sg_with_end sg_gap sg_id sg_start sg_end]. congruence. }
+  { unfold open_shape in E4. unfold seg_shape. cbn [sg_with_end sg_gap sg_id sg_start sg_end sg_ntp]. congruence. }
   destruct (window_append_shape v sc (st_segments a) (st_segments b) _ _ E3 Eg) as [W1 W2].
-  unfold shape. rewrite A1, A3, A4, A6, B1, B3, B4, B6, W1, E1. cbn [option_map open_shape new_seg sg_gap sg_id sg_start].
+  unfold shape. rewrite A1, A3, A4, A6, B1, B3, B4, B6, W1, E1. cbn [option_map open_shape new_seg sg_gap sg_id sg_start sg_ntp].
   repeat f_equal.
   destruct (snd (window_append v sc (st_segments a) (sg_with_end ga d))),
            (snd (window_append v sc (st_segments b) (sg_with_end gb d))); try lia;
@@ -72,15 +72,15 @@ Lemma copy_targets_shape both l s : shape (copy_targets both l s) = shape s.
 Proof. unfold copy_targets. destruct (st_leading s); reflexivity. Qed.
 
 (* what one own rotation does, up to shape: the result is a rotation of a stream of the same shape *)
-Definition Rot (v : variant) (sc d : Z) (s s' : stream) : Prop :=
+Definition Rot (v : variant) (sc d ntp : Z) (s s' : stream) : Prop :=
   st_leading s' = st_leading s /\
-  exists s0 g0 ntp f cur, shape s0 = shape s /\ st_open s0 = Some g0 /\
+  exists s0 g0 f cur, shape s0 = shape s /\ st_open s0 = Some g0 /\
                           shape s' = shape (fst (fst (srot_segments v sc s0 g0 d ntp f cur))).
 
 Lemma rots_own_rot m li d ntp f s :
   nth_error (m_streams m) li = Some s -> st_open s <> None ->
   exists s1, nth_error (m_streams (stream_rotateSegments m li d ntp f)) li = Some s1
-             /\ Rot (c_variant (m_cfg m)) (c_segcount (m_cfg m)) d s s1.
+             /\ Rot (c_variant (m_cfg m)) (c_segcount (m_cfg m)) d ntp s s1.
 Proof.
   intros Hs Ho.
   destruct (rots_own m li d ntp f s Hs Ho) as (s1 & Hs1 & Hn1 & Hl1).
@@ -106,7 +106,7 @@ Proof.
     unfold shape in Sh0. injection Sh0 as A _ _ _. lia.
   - rewrite E in Hs1. rewrite Es0 in Esx. injection Esx as <-.
     rewrite (nth_error_upd_same _ li _ s0 Es0) in Hs1. injection Hs1 as <-.
-    exists s0, segx, ntp, f, cur. auto.
+    exists s0, segx, f, cur. auto.
 Qed.
 
 (* ---- every stream of the leading-or-non-leading kind is rotated exactly once by the composite ---- *)
@@ -115,7 +115,7 @@ Lemma rotate_others_rot m1 d ntp f j s :
   nth_error (m_streams m1) j = Some s -> st_leading s = false -> st_open s <> None ->
   (forall m i, m_cfg (stream_rotateSegments m i d ntp f) = m_cfg m) ->
   exists s', nth_error (m_streams (rotate_others m1 (fun m i => stream_rotateSegments m i d ntp f) true)) j = Some s'
-             /\ exists mm, m_cfg mm = m_cfg m1 /\ Rot (c_variant (m_cfg mm)) (c_segcount (m_cfg mm)) d s s'.
+             /\ exists mm, m_cfg mm = m_cfg m1 /\ Rot (c_variant (m_cfg mm)) (c_segcount (m_cfg mm)) d ntp s s'.
 Proof.
   intros Hlt Hj Hl Ho Hcfg. unfold rotate_others. rewrite (seq_split j _ Hlt), fold_left_app.
   cbn [fold_left].
@@ -143,8 +143,8 @@ Proof.
   destruct (leading_stream (stream_rotateSegments ma j d ntp f)) as [l|].
   - unfold upd_stream. cbn [set_stream m_streams].
     rewrite (nth_error_upd_same _ j _ s1 Hs1). eexists. split; [reflexivity|]. exists ma. split; [exact Hca|].
-    destruct Hc as (C1 & s0 & g0 & ntp0 & f0 & cur0 & C2 & C3 & C4).
-    split; [rewrite copy_targets_leading; exact C1|]. exists s0, g0, ntp0, f0, cur0.
+    destruct Hc as (C1 & s0 & g0 & f0 & cur0 & C2 & C3 & C4).
+    split; [rewrite copy_targets_leading; exact C1|]. exists s0, g0, f0, cur0.
     repeat split; auto. now rewrite copy_targets_shape.
   - exists s1. split; [exact Hs1|]. exists ma. auto.
 Qed.
@@ -154,7 +154,7 @@ Theorem rotateSegments_rots_all m d ntp f sl :
   forall j s, nth_error (m_streams m) j = Some s -> st_open s <> None ->
               (j = leading_index m \/ st_leading s = false) ->
   exists s', nth_error (m_streams (rotateSegments m d ntp f)) j = Some s'
-             /\ Rot (c_variant (m_cfg m)) (c_segcount (m_cfg m)) d s s'.
+             /\ Rot (c_variant (m_cfg m)) (c_segcount (m_cfg m)) d ntp s s'.
 Proof.
   intros Hsl Hll j s Hj Ho [->|Hl].
   - rewrite leading_stream_nth in Hsl. rewrite Hsl in Hj. injection Hj as <-.
@@ -306,7 +306,7 @@ Proof.
     apply map_nth_error_inv in Hk. destruct Hk as (sl & Hsl & Hl).
     assert (Hls : leading_stream m = Some sl) by (rewrite leading_stream_nth, Hli; exact Hsl).
     set (sh' := shape (fst (fst (srot_segments (c_variant (m_cfg m)) (c_segcount (m_cfg m)) sl
-                  (match st_open sl with Some g => g | None => new_seg 0 0 0 false end) d 0 false [])))).
+                  (match st_open sl with Some g => g | None => new_seg 0 0 0 false end) d ntp false [])))).
     exists sh'. apply Forall_nth_intro. intros j s' Hj'.
     assert (Hlen : length (m_streams (rotateSegments m d ntp f)) = length (m_streams m))
       by (rewrite <- (map_length st_leading), flags_rotateSegments, map_length; reflexivity).
@@ -315,7 +315,7 @@ Proof.
     assert (Hcase : j = leading_index m \/ st_leading s = false).
     { destruct (st_leading s) eqn:Els; [left|now right]. rewrite Hli. apply Hu. erewrite map_nth_error by exact Ej. now rewrite Els. }
     destruct (rotateSegments_rots_all m d ntp f sl Hls Hl j s Ej (Ho s (nth_error_In _ _ Ej)) Hcase)
-      as (s'' & Hs'' & _ & s0 & g0 & ntp0 & f0 & cur0 & Sh0 & Og0 & Sh').
+      as (s'' & Hs'' & _ & s0 & g0 & f0 & cur0 & Sh0 & Og0 & Sh').
     rewrite Hj' in Hs''. injection Hs'' as <-.
     rewrite Sh'. subst sh'.
     destruct (st_open sl) as [gl|] eqn:Eol; [|exfalso; apply (Ho sl (nth_error_In _ _ Hsl)); exact Eol].
@@ -355,9 +355,9 @@ Proof.
     + cbn [set_stream m_streams]. rewrite map_map. cbn [stream_createFirst st_with st_leading]. exact HL.
     + cbn [set_stream m_streams].
       destruct sh as [[[ns dc] segs] op].
-      exists (ns, dc, segs, Some (false, ns, d)). apply Forall_map. eapply Forall_impl; [|exact HA].
+      exists (ns, dc, segs, Some (false, ns, d, ntp)). apply Forall_map. eapply Forall_impl; [|exact HA].
       intros s Hs. unfold shape in *. cbn [stream_createFirst st_with st_nextSeg st_delcount st_segments st_open
-        x_nextSeg x_delcount x_segments x_open st_mut option_map open_shape new_seg sg_gap sg_id sg_start].
+        x_nextSeg x_delcount x_segments x_open st_mut option_map open_shape new_seg sg_gap sg_id sg_start sg_ntp].
       injection Hs as -> -> -> _. reflexivity.
   - (* rotateParts (all streams) *)
     intros m0 d [HS HL HA]. constructor.
